@@ -1,0 +1,87 @@
+//go:build verif
+
+package queue
+
+import (
+	"sort"
+	"strconv"
+	"strings"
+)
+
+// Exports for the verification harness in /verif (build tag `verif` only).
+
+// VerifDump renders the queue's internal state canonically: the groups in linked-list
+// order; per group its priority, head file and listed files, each with the names of
+// its prev/next links and whether it is fully allocated; the sorted keys of byFile; and
+// whether the doubly linked list of groups is consistent. `esc` escapes a name into a
+// token; "~" stands for nil.
+func (q *Tagged) VerifDump(esc func(string) string) string {
+	q.mux.Lock()
+	defer q.mux.Unlock()
+	optName := func(f *sortedFile) string {
+		if f == nil {
+			return "~"
+		}
+		return esc(f.orig.GetName())
+	}
+	fmtNode := func(f *sortedFile) string {
+		a := "p"
+		if f.isAllocated() {
+			a = "a"
+		}
+		return esc(f.orig.GetName()) + "[" + optName(f.prev) + "|" + optName(f.next) + "|" + a + "]"
+	}
+	var out []string
+	n := 0
+	linksOK := true
+	if q.headGroup != nil && q.headGroup.prev != nil {
+		linksOK = false
+	}
+	for g := q.headGroup; g != nil; g = g.next {
+		n++
+		if n > 1000000 {
+			linksOK = false
+			break
+		}
+		if g.next != nil && g.next.prev != g {
+			linksOK = false
+		}
+		if q.byGroup[g.name] != g {
+			linksOK = false
+		}
+		s := esc(g.name) + ";p=" + strconv.Itoa(g.conf.Priority) + ";head="
+		if h := q.headFile[g.name]; h == nil {
+			s += "~"
+		} else {
+			s += fmtNode(h)
+		}
+		s += ";list="
+		if l := q.list[g.name]; len(l) == 0 {
+			s += "~"
+		} else {
+			var ls []string
+			for _, f := range l {
+				ls = append(ls, fmtNode(f))
+			}
+			s += strings.Join(ls, ",")
+		}
+		out = append(out, s)
+	}
+	if n != len(q.byGroup) {
+		linksOK = false
+	}
+	var names []string
+	for name := range q.byFile {
+		names = append(names, esc(name))
+	}
+	sort.Strings(names)
+	bf := "~"
+	if len(names) > 0 {
+		bf = strings.Join(names, ",")
+	}
+	links := "ok"
+	if !linksOK {
+		links = "broken"
+	}
+	return strings.Join(append(append([]string{"groups=" + strconv.Itoa(n)}, out...), "byfile="+bf, "glinks="+links), " ")
+}
